@@ -16,6 +16,7 @@ import (
 	"os"
 	"sort"
 	"strings"
+	"sync/atomic"
 	"testing"
 	"testing/synctest"
 	"time"
@@ -425,13 +426,12 @@ func (nw *vnNet) NodeByVpn(a netip.Addr) *vnNode {
 // ---------------------------------------------------------------------------------------------
 // packets
 
-var vnPayloadSeq uint64
+var vnPayloadSeq atomic.Uint64
 
 // vnUDP4 builds an IPv4/UDP packet whose payload starts with a unique 16-byte id.
 func vnUDP4(src, dst netip.Addr, sport, dport uint16, extra int) (pkt []byte, id [16]byte) {
-	vnPayloadSeq++
 	copy(id[:], "VERIFID!")
-	binary.BigEndian.PutUint64(id[8:], vnPayloadSeq)
+	binary.BigEndian.PutUint64(id[8:], vnPayloadSeq.Add(1))
 	payload := make([]byte, 16+extra)
 	copy(payload, id[:])
 	for i := 16; i < len(payload); i++ {
@@ -509,8 +509,12 @@ type vnTunnel struct {
 }
 
 func (nw *vnNet) AddPuppet(id *vnIdent, cas []*vnCA, addr string, dv cert.Version) *vnPuppet {
+	return nw.AddPuppetCipher(id, cas, addr, dv, "aes")
+}
+
+func (nw *vnNet) AddPuppetCipher(id *vnIdent, cas []*vnCA, addr string, dv cert.Version, cipher string) *vnPuppet {
 	ap := netip.MustParseAddrPort(addr)
-	cs, err := newCertState(dv, id.Certs[cert.Version1], id.Certs[cert.Version2], false, id.Curve, id.RawKey, "aes")
+	cs, err := newCertState(dv, id.Certs[cert.Version1], id.Certs[cert.Version2], false, id.Curve, id.RawKey, cipher)
 	if err != nil {
 		panic(err)
 	}
@@ -554,6 +558,15 @@ func (p *vnPuppet) TakeInbox() []*vnPacket {
 
 // Handshake runs a genuine IX handshake as initiator against node and returns the tunnel (nil if the node never answered).
 func (p *vnPuppet) Handshake(node *vnNode) *vnTunnel {
+	return p.HandshakeVia(node, func(msg []byte) {
+		p.nw.Inject(node, p.Addr, msg)
+		p.nw.Settle()
+	})
+}
+
+// HandshakeVia is Handshake with a caller-supplied way of handing the first message to the node
+// (so that not-started nodes can be driven synchronously, outside a bubble).
+func (p *vnPuppet) HandshakeVia(node *vnNode, deliver func(msg []byte)) *vnTunnel {
 	mach, err := handshake.NewMachine(p.CS.DefaultVersion(), p.CS.GetCredential, p.verifier(), p.allocIndex, true, header.HandshakeIXPSK0)
 	if err != nil {
 		panic(err)
@@ -562,8 +575,7 @@ func (p *vnPuppet) Handshake(node *vnNode) *vnTunnel {
 	if err != nil {
 		panic(err)
 	}
-	p.nw.Inject(node, p.Addr, msg)
-	p.nw.Settle()
+	deliver(msg)
 	for _, in := range p.TakeInbox() {
 		if !in.HOK || in.H.Type != header.Handshake {
 			p.Inbox = append(p.Inbox, in)
